@@ -165,6 +165,8 @@ def n_cases(tier):
 
 
 def gen_case(rng, tier, index):
+    if rng.random() < 0.06:
+        return {"same_name_pair": True, "max_volume": rng.choice([950, 200, 100]), "opseed": rng.getrandbits(32)}
     vclass = rng.choice(["int", "quarter", "cent", "dirty"])
     wl = gen.gen_worklist_cfg(rng, device="evo")
     wl["max_volume"] = rng.choice([950, 950, 200, 100, 333.3, 1000])
@@ -195,7 +197,45 @@ class LockstepEngine(hist.Engine):
         return op
 
 
+def _same_name_pair(ctx, case):
+    """Two distinct labware objects with the same name, one transfer between them, on both devices."""
+    import random
+
+    import robotools
+
+    res = {}
+    for dev, cls in (("evo", robotools.EvoWorklist), ("fluent", robotools.FluentWorklist)):
+        rng = random.Random(case["opseed"])
+        wl = cls(max_volume=case["max_volume"])
+        A = robotools.Labware("plate", 2, 3, min_volume=0, max_volume=1e5, initial_volumes=5e4)
+        B = robotools.Labware("plate", 2, 3, min_volume=0, max_volume=1e5, initial_volumes=10.0)
+        for lw in (A, B):
+            for i in range(rng.randint(1, 3)):
+                lw.add("A01", 1.0 + i, label=f"earlier {i}")
+        n = rng.randint(1, 4)
+        ids = ["A01", "B01", "A02", "B02"][:n]
+        vols = [rng.choice([10.0, 25.5, case["max_volume"] * 2.5, 0.0]) for _ in ids]
+        if not any(v > 0 for v in vols):
+            vols[0] = 12.0
+        exc = None
+        try:
+            wl.transfer(A, ids, B, ids, vols, label="pair", wash_scheme=rng.choice([1, 2, "flush", "reuse"]))
+        except Exception as e:
+            exc = e
+        res[dev] = (type(exc).__name__ if exc else None, list(wl),
+                    [(l, np.asarray(a).tolist()) for l, a in A.history], [(l, np.asarray(a).tolist()) for l, a in B.history],
+                    A.volumes.tolist(), B.volumes.tolist())
+    ctx.count("same_name_pair_transfers")
+    ctx.case(case, True)
+    det = lambda: {"evo": res["evo"], "fluent": res["fluent"]}
+    ctx.check("both_devices_accept_or_both_reject", (res["evo"][0] is None) == (res["fluent"][0] is None), det)
+    ctx.check("records_identical_except_trough_positions", res["evo"][1] == res["fluent"][1], det)
+    ctx.check("identical_volumes_compositions_histories", res["evo"][2:] == res["fluent"][2:], det)
+
+
 def run_case(ctx, case):
+    if case.get("same_name_pair"):
+        return _same_name_pair(ctx, case)
     mon = Lockstep(ctx, case)
     eng = LockstepEngine(ctx, case, [mon])
     eng.run()
